@@ -37,10 +37,28 @@ def plans(tier):
     ]
 
 
+def drop_plans(tier):
+    """The receiving end is dropped at a point inside a stream of (multi-packet) sends from other threads/processes."""
+    n = 40 if tier == "quick" else 500
+    return [
+        {"name": "drop-during-3pk", "msgs": [[3, 1], [1, 2]], "plan": ["recv", "drop"], "simulate": n, "liveness": False},
+        {"name": "drop-at-once", "msgs": [[2, 1], [3]], "plan": ["drop"], "simulate": n, "liveness": False},
+        {"name": "drop-proc-sender", "msgs": [[1, 3], [2, 2]], "plan": ["try", "drop"], "procs": [2], "simulate": n // 2,
+         "liveness": False},
+    ]
+
+
 def run(tier):
+    import transcheck
+    r2 = transcheck.campaign("C09", drop_plans(tier), "receiver dropped inside a stream of sends")
     res = chancheck.campaign("C09", plans(tier), nontrivial,
                              "sends to receivers that were dropped, died with their carrier queue or with their process, "
                              "and sends to receivers in transit (SIGPIPE at its default disposition in every agent)")
+    res["violations"] += r2["violations"]
+    for k in ("states", "transitions", "traces_validated_against_impl", "evaluations", "distinct_nontrivial"):
+        res["coverage"][k] += r2["coverage"].get(k, 0)
+    res["coverage"]["unmatched_schedules"] = r2["coverage"].get("unmatched_schedules", 0)
+    res["coverage"]["samples"] += r2["coverage"]["samples"][:2]
     res["assumptions"] = ["SIGPIPE is reset to SIG_DFL in the harness processes: a signal-terminated agent shows up as a "
                           "died process", "a send that blocks forever is caught by the 20 s no-progress watchdog"]
     return res
